@@ -38,6 +38,8 @@ def gen(chk):
             "[OP_1 OP_2 OP_3 OP_ROT OP_TOALTSTACK]", "[]", "", "OP_DUP", "[OP_xff]", "[OP_x4c]", "[5 -5 1000 0x 0x00 0x80]", "[OP_1 OP_CAT]", "[0x01 0x02 OP_CAT]",
             "[OP_0 OP_IF OP_2MUL OP_ENDIF]", "[OP_NOP1]", "[0x00 OP_IF OP_ENDIF]", "[sha256(0x1234) OP_SIZE]", "[OP_CHECKSIG]", "[0x01 0x02 OP_CHECKSIG]",
             "[OP_0 0x01 OP_1 OP_1 OP_CHECKMULTISIG]", "[[OP_1]]", "[OP_1", "[0x0000000080 OP_PICK]", "[OP_1 0x00 OP_PICK]"]
+    # script texts longer than any line buffer (F57: the stdin form was cut after 1023 characters)
+    hand += ["[" + "OP_1 OP_DROP " * 120 + "OP_7]", "0x" + "51" * 600 + "75" * 599, "[" + "OP_1 OP_DROP " * 700 + "OP_7]", "[0x" + "ab" * 520 + " OP_SIZE OP_NIP]"]
     stacks = [[], ["0x02"], ["5", "6"], ["0x0000000001"], ["0x80", "abc"], ["[OP_1]", "-1"]]
     for s in hand:
         for st in stacks[:4]:
